@@ -75,6 +75,10 @@ def extra(report, env):
         res.extend(o for o in obs if o[0].startswith('L0.'))
     except Exception as ex:
         res.append(('lexer.rules-readable', False, repr(ex)))
+    # bounded time rests on PLY's assumed contract, which includes that the token stream of one evaluation is private to it: an
+    # evaluation re-entered from a listener must not rewind the lexer of the one in progress
+    from props.C03 import ply_call_obligations
+    res.extend(('assumption.' + n, ok, d) for n, ok, d in ply_call_obligations(env['repo']))
     table_obligations(report, 'C01', res)
     rng = random.Random(env['seed'])
     cases, fails = e2e.check_totality(rng, env['tier'])
